@@ -34,7 +34,8 @@ MANIFEST = {
             'priority is decided on scripted two-task scenarios.'
             "  Second session: a quarter of the histories carry raptor tasks (named master, any master '*', tasks returning with raptor_seen) with the master's queue registering/unregistering at seeded points: partition rule incl. backlog/queue, no local placement of a raptor task, backlog flushed once the queue is registered."
             '  Third session: a threaded wait-pool workload - a running task ends (the loop re-tests the wait pool) while cancel requests for waiting tasks arrive on the control thread, LINE perturbation of _schedule_waitpool/control_cb: every waiting task ends up in exactly one place (placed once, canceled once, or still waiting).  The raptor registration race additionally registers the master exactly when the loop is about to enter its raptor section (gate on the raptor lock).'
-            '  A directed scenario: everybody who waited is canceled, the running task ends (a release into an empty wait pool), then a task arrives which waits for its named environment - it starts once the environment is registered.',
+            '  A directed scenario: everybody who waited is canceled, the running task ends (a release into an empty wait pool), then a task arrives which waits for its named environment - it starts once the environment is registered.'
+            '  In half of the threaded wait-pool histories every other waiting task needs a named environment, registered by the control thread exactly while the loop is at a chosen statement of a wait pool re-test (LINE hook).',
     'note': 'unbounded "eventually" restated as K=4 iterations; fit oracle '
             'only for tag-free, whole-GPU requests in scattered mode (other '
             'requests take part in the partition and at-most-once oracles '
@@ -446,18 +447,40 @@ def waitpool_cancel_race(ctx, res, rng, idx):
     env = pair = per = None
     try:
         env  = AgentEnv(wd, lay, seed=case['seed'], mode='threaded')
+        crng = __import__('random').Random(case['seed'])
+        # the named environment may be registered exactly while the loop is
+        # at the k-th statement of a wait pool re-test
+        reg_env  = {'cmd': 'register_named_env', 'arg': {'env_name': 've.1'}}
+        wp_code  = m_sb.AgentSchedulingComponent._schedule_waitpool.__code__
+        env_gate = {'armed': False, 'fired': False, 'count': 0,
+                    'at': crng.randint(1, 14)}
+        def on_line(code, line):
+            if not env_gate['armed'] or env_gate['fired'] or \
+               code is not wp_code or mt.current_thread() is not pair.thread:
+                return
+            env_gate['count'] += 1
+            if env_gate['count'] < env_gate['at']:
+                return
+            env_gate['fired'] = True
+            env.publish(rpc.CONTROL_PUBSUB, reg_env)
+            t_end = time.time() + 0.5
+            while 've.1' not in pair.child._named_envs and \
+                    time.time() < t_end:
+                time.sleep(0.0005)
+            res.count('named_env_registrations_inside_retest')
         per  = Perturb(case['seed'], 0.3,
                        funcs=[m_sb.AgentSchedulingComponent._schedule_waitpool,
-                              m_sb.AgentSchedulingComponent.control_cb])
-        crng = __import__('random').Random(case['seed'])
+                              m_sb.AgentSchedulingComponent.control_cb],
+                       on_line=on_line)
         pair = SchedulerPair(env, gated=False)
         pair.start()
 
-        def mk(uid):
+        def mk(uid, named_env=''):
             return task_dict({'uid': uid, 'ranks': 1, 'cores_per_rank': 1,
                               'gpus_per_rank': 0., 'lfs_per_rank': 0,
                               'mem_per_rank': 0, 'ranks_per_node': None,
-                              'priority': 0, 'tags': {}, 'named_env': '',
+                              'priority': 0, 'tags': {},
+                              'named_env': named_env,
                               'app_slots': False})
 
         def outcomes():
@@ -500,7 +523,14 @@ def waitpool_cancel_race(ctx, res, rng, idx):
         if not settle(lambda: len(outcomes()[0]) == cores):
             res.inconc('wait pool race: the pilot did not fill in 20 s')
             return
-        env.put(rpc.AGENT_SCHEDULING_QUEUE, [mk(u) for u in waiting])
+        # in half of the histories every other waiting task needs a named
+        # environment which is registered (control thread) while the loop
+        # re-tests the wait pool
+        with_env = case['seed'] % 2 == 1
+        case['named_env'] = with_env
+        env.put(rpc.AGENT_SCHEDULING_QUEUE,
+                [mk(u, 've.1' if with_env and i % 2 else '')
+                 for i, u in enumerate(waiting)])
         pair.intake()
         if not settle(lambda: len(pool_uids()) == len(waiting)):
             res.inconc('wait pool race: tasks did not reach the wait pool')
@@ -513,6 +543,13 @@ def waitpool_cancel_race(ctx, res, rng, idx):
         for k, u in enumerate(running[:crng.randint(1, cores)]):
             env.publish(rpc.AGENT_UNSCHEDULE_PUBSUB, placed0[u][0])
             time.sleep(crng.choice([0, 0.0002, 0.0005, 0.001, 0.003]))
+            if with_env and k == 0:
+                if case['seed'] % 4 == 1:
+                    env.publish(rpc.CONTROL_PUBSUB, reg_env)
+                    env_gate['fired'] = True
+                    res.count('named_env_registrations_during_retest')
+                else:
+                    env_gate['armed'] = True
             if k < len(victims):
                 env.publish(rpc.CONTROL_PUBSUB, {'cmd': 'cancel_tasks',
                             'arg': {'uids': [victims[k]]}})
@@ -520,6 +557,14 @@ def waitpool_cancel_race(ctx, res, rng, idx):
         for u in victims[cores:]:
             env.publish(rpc.CONTROL_PUBSUB, {'cmd': 'cancel_tasks',
                                              'arg': {'uids': [u]}})
+        if with_env and not env_gate['fired']:
+            # the loop did not get that far into a re-test: register now
+            t_end = time.time() + 1.0
+            while not env_gate['fired'] and time.time() < t_end:
+                time.sleep(0.001)
+            if not env_gate['fired']:
+                env_gate['fired'] = True
+                env.publish(rpc.CONTROL_PUBSUB, reg_env)
 
         # quiescence: nothing moves any more
         last, stable, t0, mark = None, 0, time.time(), pair.passes
